@@ -12,7 +12,7 @@ PARTS = {
 }
 BUNDLES = {
     'BA': ['so3', 'v3'], 'BB': ['v2', 'se2'], 'BC': ['se2', 'so3', 'v1', 'so2'], 'BD': ['so3', 'so3'],
-    'BEi': ['so2', 'v2'], 'BE': ['bei', 'se3'], 'BF': ['c1', 'se3'],
+    'BEi': ['so2', 'v2'], 'BE': ['bei', 'se3'], 'BF': ['c1', 'se3'], 'BG': ['v1', 'c1', 'so2'],
 }
 VEC_G = ['comp', 'inv', 'log']        # group-coefficient arguments
 VEC_T = ['exp']                         # tangent arguments, group-coefficient result
